@@ -112,14 +112,14 @@ Print Assumptions self_require_is_loop_error.
 (* ---- missing modules ---- *)
 Theorem missing_lists_tried : forall f s n,
   truthy (loaded s n) = false -> preload s n = None ->
-  (forall d, In d (path s) -> files s d n = None) ->
+  (forall d, In d (path s) -> readable (files s d n) = false) ->
   require (S f) s n = (s, Err (ENotFound n (TPre n :: map (fun d => TPath d n) (path s)))).
 Proof. exact missing_lists_tried_lemma. Qed.
 Print Assumptions missing_lists_tried.
 
 Theorem not_found_only_if_missing : forall s n m t,
   search loLoaders s n [] = inl (ENotFound m t) ->
-  m = n /\ preload s n = None /\ (forall d, In d (path s) -> files s d n = None) /\
+  m = n /\ preload s n = None /\ (forall d, In d (path s) -> readable (files s d n) = false) /\
   t = TPre n :: map (fun d => TPath d n) (path s).
 Proof. exact not_found_only_if_missing_lemma. Qed.
 Print Assumptions not_found_only_if_missing.
@@ -218,3 +218,10 @@ Theorem host_modules_reachable_any_order : forall i sb n,
   forall fuel, require (S fuel) s2 n = (s2, Ok (loaded (fst sb) n)).
 Proof. exact host_modules_reachable_any_order_lemma. Qed.
 Print Assumptions host_modules_reachable_any_order.
+
+(* ---- unreadable candidates on package.path ---- *)
+Theorem unreadable_candidate_is_skipped : forall fs n d p msgs,
+  readable (fs d n) = false ->
+  loFindFile fs n (d :: p) msgs = loFindFile fs n p (msgs ++ [TPath d n]).
+Proof. exact unreadable_candidate_is_skipped_lemma. Qed.
+Print Assumptions unreadable_candidate_is_skipped.
